@@ -96,8 +96,241 @@ def extract():
     return gaps
 
 
+# --------------------------------------------------------------------------------------
+# generator
+# --------------------------------------------------------------------------------------
+
+BOUNDARY_TN = [(1, 1), (1, 2), (2, 2), (2, 3), (3, 5), (5, 8), (1, 255), (2, 255), (3, 255), (128, 255), (254, 255),
+               (255, 255), (254, 254), (1, 254), (127, 254), (2, 128), (128, 128), (16, 17), (32, 64)]
+
+
+def _secret(rng) -> str:
+    r = rng.random()
+    if r < 0.08:
+        return "00" * 32
+    if r < 0.14:
+        return "ff" * 32
+    if r < 0.20:
+        return "".join(rng.choice(["00", "01", "ff"]) for _ in range(32))
+    return "".join(f"{rng.randrange(256):02x}" for _ in range(32))
+
+
+def _rngmode(rng) -> str:
+    r = rng.random()
+    if r < 0.12:
+        return "z"
+    if r < 0.22:
+        return f"k{rng.choice([1, 2, 255, rng.randrange(256)])}"
+    return f"r{rng.randrange(1 << 32)}"
+
+
+def _sel(xs) -> str:
+    return ",".join(map(str, xs)) if xs else "-"
+
+
+def split_case(rng, t: int, n: int, ncomb: int, tag: str, secret=None, mode=None) -> Case:
+    """one split and combine() on selections of its shares: exact-threshold subsets in random order, reversed,
+    more than t, one short, with a repeated position inside / outside the first t, a lower threshold."""
+    ops = [f"split {secret or _secret(rng)} {t} {n} {mode or _rngmode(rng)}"]
+    for _ in range(ncomb):
+        kind = rng.choice(["exact", "exact", "exact", "more", "short", "dup", "dup", "dup-late", "all-rev", "lower"])
+        if kind == "exact":
+            ops.append(f"combsel {t} {_sel(rng.sample(range(n), t))}")
+        elif kind == "more":
+            m = rng.randint(t, n)
+            ops.append(f"combsel {t} {_sel(rng.sample(range(n), m))}")
+        elif kind == "short":
+            ops.append(f"combsel {t} {_sel(rng.sample(range(n), t - 1))}")
+        elif kind == "dup":
+            if t >= 2:
+                xs = rng.sample(range(n), t)
+                i, j = rng.sample(range(t), 2)
+                xs[j] = xs[i]
+                ops.append(f"combsel {t} {_sel(xs)}")
+            else:
+                ops.append(f"combsel {t} -")
+        elif kind == "dup-late":            # a repetition after the first t shares is not looked at
+            xs = rng.sample(range(n), t)
+            ops.append(f"combsel {t} {_sel(xs + [rng.choice(xs)])}")
+        elif kind == "all-rev":
+            ops.append(f"combsel {t} {_sel(list(range(n - 1, -1, -1)))}")
+        else:                                # lower threshold than the split's: any value, but no crash
+            tt = rng.randint(0, t)
+            ops.append(f"combsel {tt} {_sel(rng.sample(range(n), min(n, tt)))}")
+    return Case(ops=ops, tag=tag)
+
+
+def zero_dup_case(rng) -> Case:
+    """the witness family of the second defect: all-zero secret and zero coefficients give all-zero shares;
+    a repeated index among them must be rejected although every division is skipped."""
+    n = rng.choice([2, 3, 5, 8, 255])
+    t = rng.randint(2, min(n, 6))
+    ops = [f"split {'00' * 32} {t} {n} z"]
+    xs = rng.sample(range(n), t)
+    xs[rng.randrange(1, t)] = xs[0]
+    ops.append(f"combsel {t} {_sel(xs)}")
+    ops.append(f"combsel {t} {_sel([xs[0]] * t)}")
+    z = "00" * 32
+    idx = rng.randint(1, 255)
+    ops.append(f"combine 2 {idx}:{z},{idx}:{z}")
+    sparse = "".join(rng.choice(["00", "00", "00", f"{rng.randrange(256):02x}"]) for _ in range(32))
+    ops.append(f"combine 2 {idx}:{sparse},{idx}:{z}")
+    ops.append(f"combine 3 {idx}:{z},{(idx % 255) + 1}:{sparse},{idx}:{z}")
+    return Case(ops=ops, tag="zero-dup")
+
+
+def _val(rng) -> str:
+    r = rng.random()
+    if r < 0.15:
+        return "00" * 32
+    if r < 0.3:
+        return "".join(rng.choice(["00", "00", f"{rng.randrange(256):02x}"]) for _ in range(32))
+    return "".join(f"{rng.randrange(256):02x}" for _ in range(32))
+
+
+def combine_case(rng, malformed: bool) -> Case:
+    """explicit share sets handed to combine(): arbitrary indices and values."""
+    ops = []
+    for _ in range(rng.randint(3, 8)):
+        t = rng.choice([1, 2, 2, 3, 3, 4, 5, 8, 16])
+        if not malformed:
+            m = rng.randint(t, t + 2)
+            idx = rng.sample(range(1, 256), m)
+            ops.append(f"combine {t} " + ",".join(f"{i}:{_val(rng)}" for i in idx))
+            continue
+        kind = rng.choice(["short", "dup", "dup", "zero", "empty", "t0", "dup-late", "zero-late"])
+        if kind == "short":
+            idx = rng.sample(range(1, 256), t - 1)
+            ops.append(f"combine {t} " + (",".join(f"{i}:{_val(rng)}" for i in idx) or "-"))
+        elif kind == "dup" and t >= 2:
+            idx = rng.sample(range(1, 256), t)
+            i, j = rng.sample(range(t), 2)
+            idx[j] = idx[i]
+            ops.append(f"combine {t} " + ",".join(f"{i}:{_val(rng)}" for i in idx))
+        elif kind == "zero":
+            idx = rng.sample(range(1, 256), t)
+            idx[rng.randrange(t)] = 0
+            ops.append(f"combine {t} " + ",".join(f"{i}:{_val(rng)}" for i in idx))
+        elif kind == "empty":
+            ops.append(f"combine {t} -")
+        elif kind == "t0":
+            idx = rng.sample(range(0, 256), rng.randint(0, 3))
+            ops.append("combine 0 " + (",".join(f"{i}:{_val(rng)}" for i in idx) or "-"))
+        elif kind == "dup-late":
+            idx = rng.sample(range(1, 256), t)
+            ops.append(f"combine {t} " + ",".join(f"{i}:{_val(rng)}" for i in idx + [idx[0]]))
+        else:
+            idx = rng.sample(range(1, 256), t)
+            ops.append(f"combine {t} " + ",".join(f"{i}:{_val(rng)}" for i in idx + [0]))
+    return Case(ops=ops, tag="combine-malformed" if malformed else "combine-raw")
+
+
+def gf_table_case() -> Case:
+    ops = ["exptab", "logtab"] + [f"mulrow {a}" for a in range(256)] + [f"divrow {a}" for a in range(256)]
+    ops += ["fieldcheck", "gfdigest"] + [f"div {a} 0" for a in (0, 1, 2, 29, 128, 255)]
+    return Case(ops=ops, tag="gf-table")
+
+
+def gf_spot_case(rng) -> Case:
+    ops = []
+    for _ in range(24):
+        r = rng.random()
+        a = rng.choice([0, 1, 2, 3, 0x1d, 0x80, 0x8e, 0xff, rng.randrange(256)])
+        b = rng.choice([0, 1, 2, 0x80, 0xff, rng.randrange(256), rng.randrange(256)])
+        if r < 0.35:
+            ops.append(f"mul {a} {b}")
+        elif r < 0.7:
+            ops.append(f"div {a} {b}")
+        else:
+            k = rng.choice([0, 1, 2, 3, 7, 31, 254])
+            cs = "".join(f"{rng.choice([0, 0, 1, 255, rng.randrange(256)]):02x}" for _ in range(k)) or "-"
+            ops.append(f"eval {a} {b} {cs}")
+    return Case(ops=ops, tag="gf-spot")
+
+
+def split_params_case(rng) -> Case:
+    ops = []
+    for _ in range(6):
+        kind = rng.choice(["t0", "n0", "t>n", "both0"])
+        if kind == "t0":
+            t, n = 0, rng.randint(1, 255)
+        elif kind == "n0":
+            t, n = rng.randint(1, 255), 0
+        elif kind == "both0":
+            t, n = 0, 0
+        else:
+            n = rng.randint(1, 254)
+            t = rng.randint(n + 1, 255)
+        ops.append(f"split {_secret(rng)} {t} {n} {_rngmode(rng)}")
+    ops.append("combsel 1 0")
+    return Case(ops=ops, tag="split-params")
+
+
+def generate(ctx, budget):
+    rng = ctx.rng
+    cases = [gf_table_case()]
+    cases += [gf_spot_case(rng) for _ in range(max(4, budget // 40))]
+    cases += [zero_dup_case(rng) for _ in range(max(6, budget // 40))]
+    cases += [split_params_case(rng) for _ in range(max(3, budget // 100))]
+    cases += [combine_case(rng, True) for _ in range(max(10, budget // 12))]
+    cases += [combine_case(rng, False) for _ in range(max(10, budget // 12))]
+    for (t, n) in BOUNDARY_TN:
+        cases.append(split_case(rng, t, n, 4 if n > 64 else 8, "split-boundary"))
+    if ctx.tier == "thorough":
+        # the whole triangle 1 <= t <= n <= 255
+        for n in range(1, 256):
+            for t in range(1, n + 1):
+                cases.append(split_case(rng, t, n, 2, "split-triangle"))
+    while len(cases) < budget:
+        if rng.random() < 0.7:
+            n = rng.randint(1, 40)
+        else:
+            n = rng.choice([rng.randint(1, 255), 255, 254, 128, 127, 64])
+        t = rng.choice([1, n, max(1, n - 1), rng.randint(1, n), rng.randint(1, n), min(n, 2), min(n, 3)])
+        cases.append(split_case(rng, t, n, 3 if n > 64 else 8, "split-random"))
+    return cases
+
+
+def nontrivial(r: CaseResult) -> bool:
+    """a case counts when the implementation produced a value somewhere and (for share-set cases) also
+    rejected something or reconstructed from a re-ordered subset."""
+    tag = r.case.tag.split("/")[0]
+    oks = sum(1 for o in r.impl if o.startswith("ok"))
+    throws = sum(1 for o in r.impl if o.startswith("throw"))
+    if tag.startswith("gf-"):
+        return True
+    if tag in ("combine-malformed", "split-params", "zero-dup"):
+        return throws > 0
+    if tag == "combine-raw":
+        return oks > 0
+    return oks >= 2
+
+
 def spec() -> Spec:
-    raise NotImplementedError
+    return Spec(
+        pid=PID,
+        proof_modules=["EphVerif.Proofs.C10"],
+        driver="drv_c10",
+        harness=harness,
+        generate=generate,
+        extract=extract,
+        nontrivial=nontrivial,
+        budget={"quick": 260, "thorough": 34500},
+        search_budget={"quick": 600, "thorough": 36000},
+        rule="(a) the complete 256x256 gf_mul and 255x256 gf_div tables, row by row, plus both log/exp tables and a digest; "
+             "(b) split for (t, n): boundary pairs incl. n = 255 and t = n, random pairs, and in the thorough tier every pair of the "
+             "triangle 1 <= t <= n <= 255, each followed by combine() on random subsets/orders of its shares (exact t, more, one "
+             "short, repeated position inside/outside the first t, reversed, lower threshold); (c) explicit well-formed and "
+             "malformed share sets (too few, repeated index with zero / sparse / random bytes, index 0, t = 0, empty); secrets "
+             "random / all-zero / all-ff, coefficient streams random / all-zero / constant. distinct = sha256 of the op list; "
+             "non-trivial = the implementation returned a value and (where the shape contains one) rejected a bad set",
+        trusted_base=["std::random_device is replaced in the harness by a deterministic stream (link-time interposition of its three "
+                      "out-of-line members); the quality of the real entropy source is outside the model",
+                      "split runs in a forked child of the harness with a 1.5 s deadline (a hang is reported as `timeout`)"],
+        assumptions=["share indices and bytes are uint8 values (the C++ types guarantee it); secrets are 32 bytes"],
+        per_case_timeout=60.0,
+        batch=1000,
+    )
 
 
 def run(tier, seed, replay=None):
